@@ -29,6 +29,7 @@ var registry = map[string]check{
 	"C12": {"fault_enumeration", checks.C12},
 	"C13": {"model_checking", checks.C13},
 	"C16": {"model_checking", checks.C16},
+	"C17": {"fault_enumeration", checks.C17},
 	"C19": {"exploration", checks.C19},
 }
 
@@ -36,6 +37,9 @@ func main() {
 	if len(os.Args) < 2 {
 		fmt.Println("usage: mc <property-id> | replay <file>")
 		os.Exit(2)
+	}
+	if os.Args[1] == "c17-child" {
+		os.Exit(checks.C17Child(os.Args[2:]))
 	}
 	if os.Args[1] == "replay" {
 		os.Exit(checks.Replay(os.Args[2]))
